@@ -907,6 +907,42 @@ func genC20IPv6(c *Ctx) {
 		c.Check("c20.ipv6.netip_parse", S(s))
 		c.Check("c20.ipv6.parse_ref", S(s))
 	}
+	// ranges whose bounds sit on the extremes of a 64-bit half or of a 16-bit group (a whole /64, a whole /48 ...):
+	// sizes computed as end-start+1 wrap to 0 exactly there
+	{
+		ext := []uint16{0, 1, 0x7fff, 0x8000, 0xfffe, 0xffff}
+		for rep := 0; rep < c.N(600, 8000); rep++ {
+			s, e := rndG(), rndG()
+			copy(e[:4], s[:4])
+			k := r.Intn(5) // groups k..7 of the bounds are extremes
+			for g := 3 + k; g < 8; g++ {
+				if g < 4 {
+					continue
+				}
+				s[g] = []uint16{0, 0, 0, 1}[r.Intn(4)]
+				e[g] = []uint16{0xffff, 0xffff, 0xffff, 0xfffe}[r.Intn(4)]
+			}
+			if rep%5 == 0 { // the whole /64 exactly
+				for g := 4; g < 8; g++ {
+					s[g], e[g] = 0, 0xffff
+				}
+			}
+			x := s
+			for g := 4; g < 8; g++ {
+				x[g] = ext[r.Intn(len(ext))]
+				if r.Intn(3) == 0 {
+					x[g] = uint16(r.U64())
+				}
+			}
+			if rep%7 == 0 {
+				x[3]++ // just outside the shared high half
+			}
+			sv, ev, xv := v6groups(s), v6groups(e), v6groups(x)
+			c.Check("c20.ipv6.range", xv, sv, ev)
+			c.Case("ipv6.inrange", xv, sv, ev)
+			c.Case("ipv6range.contains", sv, ev, xv)
+		}
+	}
 	// ranges: boundaries in both 64-bit halves
 	for rep := 0; rep < c.N(500, 10000); rep++ {
 		s, e := rndG(), rndG()
